@@ -169,3 +169,13 @@ Definition quantile_case_ok (c : bool * Z * Z * list (list Z) * list Z * list xq
   let '(skipna, qn, qd, groups, nans, impl) := c in
   forallb2 xq_close (flox_quantile skipna qn qd groups nans) impl
   && forallb2 xq_close (spec_quantile skipna qn qd groups nans) impl.
+
+(* ---- scan cases (K3) ---- *)
+From Flox Require Import Scan.
+(* (func: 0 nancumsum | 1 ffill | 2 bfill ; chunk sizes ([] = eager) ; codes ; vals ; impl) *)
+Definition scan_case_ok (c : Z * list nat * list Z * list xval * list xval) : bool :=
+  let '(f, sizes, codes, vals, impl) := c in
+  let m := if f =? 2 then bfill_seq codes vals
+           else let fn := if f =? 0 then Nancumsum else Ffill in
+                match sizes with [] => scan_seq fn codes vals | _ => scan_chunked fn sizes codes vals end in
+  forallb2 xval_eqb m impl.
